@@ -81,6 +81,18 @@ func (v *VerifC44) Reload(ts []Tunnel) error {
 	return nil
 }
 
+// ReloadFile runs doReload on whatever is at the config path right now (the harness removes the file
+// or overwrites it with undecodable text first).
+func (v *VerifC44) ReloadFile() { v.C.doReload(context.Background()) }
+
+// Path is the config file the client was created on.
+func (v *VerifC44) Path() string { return v.path }
+
+// Tunnels returns a copy of Configuration.Tunnels as the client holds it right now (read without
+// configMu: the harness calls it only when no goroutine of the client is running, or when the only
+// one is parked at the yield point).
+func (v *VerifC44) Tunnels() []Tunnel { return append([]Tunnel{}, v.C.Configuration.Tunnels...) }
+
 func (v *VerifC44) Unpublish(h string) error {
 	return v.C.UnpublishTunnel(context.Background(), Tunnel{Hostname: h})
 }
